@@ -300,6 +300,7 @@ impl Cli {
             match resp::parse(&self.inb) {
                 resp::Parse::Done(r, n) => {
                     self.inb.drain(..n);
+                    let is_error = matches!(r, resp::Reply::Error(_));
                     let stamp = self.sh.stamp();
                     if self.replies < self.reqs.len() {
                         let rec = &mut self.reqs[self.replies];
@@ -309,7 +310,9 @@ impl Cli {
                         self.extra_replies.push(r);
                     }
                     self.replies += 1;
-                    if !self.first_reply_seen {
+                    // "being served" starts with the first reply that is not an error: a server
+                    // that turns a connection away with an error reply is not serving it
+                    if !self.first_reply_seen && !is_error {
                         self.first_reply_seen = true;
                         if !self.ended_by_client {
                             let h = self.sh.held.fetch_add(1, Ordering::SeqCst) + 1;
@@ -388,6 +391,8 @@ impl Cli {
                         self.eof = true;
                         self.eof_time = Some(sim.now_ns());
                         progressed = true;
+                        // the server has ended this connection: it is not being served any more
+                        self.mark_ended();
                     }
                     Poll::Ready(Ok(n)) => {
                         self.inb.extend_from_slice(&buf[..n]);
@@ -399,6 +404,7 @@ impl Cli {
                         self.reset = true;
                         self.eof_time = Some(sim.now_ns());
                         progressed = true;
+                        self.mark_ended();
                     }
                     Poll::Pending => read_pending = true,
                 }
